@@ -38,6 +38,14 @@ def run(ctx, replay_case):
                 faults.append(ds.Case(c.tname, c.cc, c.enc, __import__("msggen").put(c.data, off, w, x), "value_fault_last"))
     if ctx.tier == "quick" and len(faults) > 12000:
         faults = rnd.sample(faults, 12000)
+    # a constraint error that is raised between two bytes (not on a byte send): a successful response decoded without a command code
+    # or under a code that has no layouts is rejected right after its responseCode event, with the whole body unconsumed (seed C13h:
+    # the pump attached the remaining bytes only to size errors on that path)
+    nolay = [c for c in wf if c.kind == "wf_rsp" and c.meta.get("rc", 0) == 0 and not c.meta.get("anycc")]
+    for c in (nolay if ctx.tier != "quick" else rnd.sample(nolay, min(len(nolay), 60))):
+        for ccx in (None, 0x123, 0x20000001):
+            faults.append(ds.Case("Response", ccx, c.enc, c.data, "no_layout"))
+            faults.append(ds.Case("Response", ccx, c.enc, c.data[:10], "no_layout"))
     res = ds.run_both(faults, "S")
     impl, model = res["S"]
     ds.correspondence_violation(ctx, "DEC strict (fault enumeration)", faults, "S", impl, model)
@@ -57,7 +65,7 @@ def run(ctx, replay_case):
         except ValueError:
             rem_b = None
         emitted = ds.event_offsets(ds.events_of(b), L)[-1] if ds.events_of(b) and ds.widths_ok(b, L) else 0
-        skipped = consumed_after_events(b, L)
+        skipped = 0 if c.kind == "no_layout" and " path=.commandCode " in r else consumed_after_events(b, L)
         ok = rem_b is not None and skipped is not None and c.data.endswith(rem_b) and \
             len(c.data) - len(rem_b) == min(len(c.data), emitted + skipped)
         if not ok:
